@@ -37,7 +37,7 @@ func keys(idx ...int) []srv.Key {
 	return out
 }
 
-var keySets = [][]srv.Key{keys(0), keys(1), keys(0, 1), keys(0, 2), keys(2, 0), keys(1, 4), keys(3), keys(0, 1, 3)}
+var keySets = [][]srv.Key{keys(0), keys(1), keys(0, 1), keys(0, 2), keys(2, 0), keys(1, 4), keys(3), keys(0, 1, 3), keys(0, 2, 1)}
 
 var lnSets = [][]srv.Ln{
 	{{Type: "tcp", Addr: "127.0.0.1:9000"}},
@@ -45,6 +45,7 @@ var lnSets = [][]srv.Ln{
 	{{Type: "tcp", Addr: "127.0.0.1:9000"}, {Type: "udp", Addr: "127.0.0.1:9000"}},
 	{{Type: "tcp", Addr: "[::]:9001"}, {Type: "tcp", Addr: "127.0.0.1:9002"}},
 	{{Type: "tcp", Addr: "127.0.0.1:9002"}, {Type: "udp", Addr: "[::]:9001"}},
+	{{Type: "udp", Addr: "127.0.0.1:9003"}, {Type: "udp", Addr: "127.0.0.1:9004"}},
 }
 
 var legacySets = [][]srv.Legacy{
@@ -158,6 +159,29 @@ func Matrix(w *srv.World, c srv.Cfg, seedBase uint64, add func(sig, msg string))
 			if !r.Authed || !r.Served {
 				add("configured-key-rejected-after-usage{"+l.Type+"}", fmt.Sprintf("listener %s %s: after clients %v used keys in turn, key %s from %s was not served (step %d, status %s)", l.Type, l.Addr, []string{"P:X", "Q:Y", "P:X", "P:Y", "Q:X"}, st.k.ID, st.from, si, r.Status))
 				break
+			}
+		}
+	}
+	// one client socket that talks to two UDP listeners in turn, with a different key on the
+	// second where there is one: each (listener, key) pair of the configuration works whatever
+	// the client did on another listener before
+	var udps []srv.Listener
+	for _, l := range c.Listeners() {
+		if l.Type == "udp" {
+			udps = append(udps, l)
+		}
+	}
+	for i, l1 := range udps {
+		for j, l2 := range udps {
+			if i == j || len(l1.Keys) == 0 || len(l2.Keys) == 0 {
+				continue
+			}
+			x, y := l1.Keys[0], l2.Keys[len(l2.Keys)-1]
+			from := fmt.Sprintf("203.0.113.210:%d", 30000+i*16+j)
+			r1 := w.ProbeUDPAt(l1, x, seedBase+9500+uint64(i*16+j), from)
+			r2 := w.ProbeUDPAt(l2, y, seedBase+9800+uint64(i*16+j), from)
+			if !r1.Served || !r2.Served {
+				add("configured-key-rejected-after-other-listener{udp}", fmt.Sprintf("one client socket (%s) used key %s on listener %s (served=%v) and then key %s on listener %s (served=%v)", from, x.ID, l1.Addr, r1.Served, y.ID, l2.Addr, r2.Served))
 			}
 		}
 	}
